@@ -347,7 +347,7 @@ def r17e(ctx, tom):
 
 def r17f(ctx):
     repo = ctx.repo
-    ctx.rule("R17f", "CSV export/import: same dialect default, row-major order, None ↔ empty string", floor=3)
+    ctx.rule("R17f", "CSV export/import: same dialect default, row-major order, None ↔ empty string, reader fed the text as written", floor=4)
     ex = repo.func("Table.to_csv")
     im = repo.func("table:import_from_csv")
     d1 = ex.defaults().get("dialect")
@@ -364,6 +364,40 @@ def r17f(ctx):
     ctx.instance("R17f", f"{im.file}:{im.ident}", "one table row per CSV line, appended in order", ok=ok, nontrivial=True)
     if not ok:
         ctx.report("R17f", im, im.node, "import loop", "import_from_csv no longer appends one row per CSV line in order")
+    # what the CSV reader is fed keeps its line ends: the csv module needs them to rebuild a quoted value that spans lines, and to_csv writes
+    # such values (a cell holding "a\nb") with the line break inside the quotes
+    from .c14 import _lossy_call
+    readers = [c for c in walk_no_nested(im.node) if isinstance(c, ast.Call) and call_name(c) in ("reader", "DictReader") and c.args]
+    if not readers:
+        raise AnalysisError("R17f: csv.reader call not found in import_from_csv")
+    defs: dict[str, list[ast.expr]] = {}
+    for st in walk_no_nested(im.node):
+        if isinstance(st, ast.Assign):
+            for t in st.targets:
+                if isinstance(t, ast.Name):
+                    defs.setdefault(t.id, []).append(st.value)
+    for c in readers:
+        seen, work, bad = set(), [c.args[0]], []
+        while work:
+            e = work.pop()
+            if id(e) in seen:
+                continue
+            seen.add(id(e))
+            for x in ast.walk(e):
+                if isinstance(x, ast.Call) and isinstance(x.func, ast.Attribute) and x.func.attr == "splitlines":
+                    keep = (x.args and isinstance(x.args[0], ast.Constant) and x.args[0].value is True) or any(
+                        k.arg == "keepends" and isinstance(k.value, ast.Constant) and k.value.value is True for k in x.keywords)
+                    if not keep:
+                        bad.append((x, "drops the line ends"))
+                elif isinstance(x, ast.Call) and _lossy_call(x):
+                    bad.append((x, "rewrites the text"))
+                elif isinstance(x, ast.Name) and x.id in defs:
+                    work.extend(defs[x.id])
+        ctx.instance("R17f", f"{im.file}:{im.ident}", f"`{norm(c, 40)}` is fed the text as written (line ends kept, nothing rewritten)", ok=not bad, nontrivial=True, line=c.lineno)
+        for x, why in bad[:2]:
+            ctx.report("R17f", im, x, f"{norm(x, 50)} feeds csv.reader",
+                       f"import_from_csv {why} of what it hands to csv.reader (`{norm(x, 40)}`): a value that to_csv wrote with a line break inside quotes comes back "
+                       f"without it (or changed), so exporting to CSV and importing back does not preserve the values")
 
 
 RAW_SOURCES = {"_get_rows", "_get_cells", "_get_columns"}
@@ -476,6 +510,9 @@ from ..selftest import Seed, unparse_seed  # noqa: E402
 _T = "src/odfdo/table.py"
 _R = "src/odfdo/row.py"
 SEEDS = [
+    Seed("import_from_csv splits lines without keeping their ends", "fault", _T, '    data = content.splitlines(True)\n', '    data = content.splitlines()\n', "R17f"),
+    Seed("import_from_csv normalises CRLF before reading", "fault", _T, '    data = content.splitlines(True)\n', '    data = content.replace("\\r\\n", "\\n").splitlines(True)\n', "R17f"),
+    Seed("import_from_csv keeps line ends by keyword", "neutral", _T, '    data = content.splitlines(True)\n', '    text = content\n    data = text.splitlines(keepends=True)\n'),
     Seed("set_span scans only the last collected row", "fault", _T, '        for row in cells:\n            for cell in row:\n                if cell.is_spanned():\n                    good = False\n                    break\n            if not good:\n                break\n        if not good:\n            return False\n', '        if any(cell.is_spanned() for cell in row_cells):\n            return False\n', "R17a"),
     Seed("set_span scans the whole matrix with any()", "neutral", _T, '        for row in cells:\n            for cell in row:\n                if cell.is_spanned():\n                    good = False\n                    break\n            if not good:\n                break\n        if not good:\n            return False\n', '        if any(cell.is_spanned() for row in cells for cell in row):\n            return False\n'),
     Seed("optimize_width un-repeats the last row whatever it holds", "fault", _T,
